@@ -43,7 +43,7 @@ PROP = {'title': 'Generic operations conserve values: rvalues moved once, lvalue
               'element type (identity, copy/move/assign counters, moved-from flag, logged payload reads); per call an exact oracle on the '
               'identities found in the result and in the arguments; move-only instantiation of every entry as a compile probe',
  'level_text': 'Every registered operation (about 150 entries from algorithm, container, grid, tree, optional, either, variant, record, '
-               'tuple, array, options and parse) is called for every combination of the stated shapes (empty/one/three elements, '
+               'tuple, array, options, parse and the helpers move_if_rvalue / move_iterator_if_rvalue / move_clear) is called for every combination of the stated shapes (empty/one/three elements, '
                'absent/present, each alternative, each failure position) and value categories (lvalue, const lvalue, rvalue) of all its '
                'arguments. The element type records every special member call per value identity, so a copy of an rvalue element, a move '
                'out of an lvalue, a lost or duplicated element or a read of a moved-from object is observed directly, which tests with '
